@@ -63,6 +63,7 @@ struct MovingAverage {
     window: Window<f32>,
     inv_len: f32,
     moving_sum: f32,
+    since_refresh: usize,
 }
 
 impl MovingAverage {
@@ -76,6 +77,7 @@ impl MovingAverage {
             window: Window::new(len),
             inv_len: 1.0f32 / (len as f32),
             moving_sum: 0.0f32,
+            since_refresh: 0,
         }
     }
 
@@ -85,6 +87,7 @@ impl MovingAverage {
     pub fn reset(&mut self) {
         self.window.reset();
         self.moving_sum = 0.0f32;
+        self.since_refresh = 0;
     }
 
     /// Filter length
@@ -104,6 +107,21 @@ impl MovingAverage {
     pub fn filter(&mut self, input: f32) -> (f32, f32) {
         let aged = self.window.push_scalar(input);
         self.moving_sum += input - aged;
+
+        // The running sum is never exact in floating point, and its
+        // rounding errors are never aged off. Left alone, they add up
+        // without bound: a constant offset which the filter itself
+        // inserts into every later output. Recompute the sum from the
+        // window once per window length.
+        self.since_refresh += 1;
+        if self.since_refresh >= self.window.len() {
+            self.since_refresh = 0;
+            self.moving_sum = self
+                .window
+                .as_slice()
+                .iter()
+                .fold(0.0f32, |sum, sa| sum + *sa);
+        }
         (self.moving_sum * self.inv_len, self.window.front())
     }
 }
